@@ -115,6 +115,25 @@ def check(ctx: Ctx) -> None:
                         e = float((Tn - 1 - (i % Tn)) * dt_q)
                         if one.shape != (2, 1) or not bool(((one - e).abs() <= tol).all()):
                             ctx.violation("grid:ttm-step", f"time_to_maturity({i}) is not (T-1-i)*dt", {"dt": r["dt"], "T": Tn, "i": i, "observed": one.flatten().tolist(), "expected": e})
+                    # the time FEATURES read the same grid: wherever the feature accepts the index (negative ones count from the end,
+                    # as for the derivative), its value is the derivative's time to maturity at that index
+                    from pfhedge.features import get_feature
+                    for featname in ("time_to_maturity", "expiry_time"):
+                        ft = get_feature(featname).of(d)
+                        for i in sorted({0, 1 % Tn, Tn - 1, -1, -Tn}):
+                            try:
+                                one = ft.get(i)
+                            except Exception:
+                                ctx.skip(f"feature {featname} does not accept step {'<0' if i < 0 else '>=0'}")
+                                continue
+                            ctx.count(n=1)
+                            e = float((Tn - 1 - (i % Tn)) * dt_q)
+                            if one.shape != (2, 1, 1) or not bool(((one - e).abs() <= tol).all()):
+                                ctx.violation("grid:ttm-feature-step", f"feature {featname}.get({i}) is not (T-1-i)*dt on the simulated grid", {"dt": r["dt"], "T": Tn, "i": i,
+                                              "observed": one.flatten().tolist(), "expected": e})
+                        full = ft.get(None)
+                        if full.shape != (2, Tn, 1) or not bool(((full[..., 0] - exp).abs() <= tol).all()):
+                            ctx.violation("grid:ttm-feature-all", f"feature {featname}.get(None) is not (T-1-i)*dt on the simulated grid", {"dt": r["dt"], "T": Tn})
                     # payoffs, features and hedges use THIS grid: step i of every feature (negative indices included) is
                     # column i of the simulated series, and the contract is settled on its last column
                     if hasattr(d, "moneyness"):
